@@ -270,6 +270,9 @@ func c08(c *Ctx) {
 			r.Bad("C08.R1", "capture of "+slot.Name(), p.Pos(slot.Pos()), "the slot Cancel restores from is never captured")
 		}
 	}
+	// R4 (shared with C12.R1/C02.R7): the builder files a variable mocker under the key it consults and never forgets it,
+	// so that Reset reaches every mocker whose handle the caller may still use
+	checkCacheKeys(p, r, "C08.R4", "C08.R4")
 	// R3: every target write in VarMock methods other than Cancel is in a function that captures first
 	capFns := map[*ssa.Function]bool{}
 	for slot := range slots {
